@@ -225,6 +225,9 @@ pub fn check(case: &Case, obs: &mut Obs, which: Which, ctx: &Ctx) -> CheckResult
                 let bytes: Vec<u8> = match u {
                     Up::RegErr => {
                         obs.class("reg-err-delivered");
+                        // the receiver has rejected this link: whatever the sender's flags say, it is not registered
+                        // any more until a new REG3 (the harness's own record)
+                        registered.insert(sh.st.conns[li].conn_id, false);
                         vec![0x92, 0x10]
                     }
                     Up::Reg3 => {
@@ -446,6 +449,13 @@ pub fn check(case: &Case, obs: &mut Obs, which: Which, ctx: &Ctx) -> CheckResult
                                 !matches!(c.phase, LinkPhase::Registering),
                                 "routed-to-registering-link",
                                 "op {oi}: unique copy routed to link {u} which has not completed registration since its last reset"
+                            );
+                            vensure!(
+                                registered.get(&c.conn_id).copied().unwrap_or(false),
+                                "routed-to-unregistered-link",
+                                "op {oi}: unique copy routed to link {u}: no REG3 has been delivered to it since it was last torn down or rejected with REG_ERR (the link reports connected={}, phase {:?})",
+                                c.connected,
+                                c.phase
                             );
                             let age = c.last_received.map(|lr| now.saturating_sub(lr));
                             vensure!(
